@@ -17,14 +17,14 @@ import (
 // cache snapshot (names -> stamps), interest sets, acknowledged versions / nonces, name table.
 
 type histProfile struct {
-	steps       int
-	pFault      int // % of steps that are stream faults
-	pBad        int // % of pushes with an undecodable slot
+	steps        int
+	pFault       int // % of steps that are stream faults
+	pBad         int // % of pushes with an undecodable slot
 	pUnsolicited int
-	pGet        int
-	authStop    bool // may stop the client with an authentication error
-	createFail  bool // stream creation may fail (costs real back-off time)
-	sendFail    bool
+	pGet         int
+	authStop     bool // may stop the client with an authentication error
+	createFail   bool // stream creation may fail (costs real back-off time)
+	sendFail     bool
 }
 
 var histUniverse = map[string][]string{
